@@ -85,7 +85,11 @@ class Gen:
         kind = r.choice(KINDS)
         out = tok(OPEN, oid)
         if kind == "2":
-            out += S(b"2") + (S(b"x") if r.random() < 0.8 else tok(VOCAB, 2))
+            k2 = r.random()
+            # the second index token of a two-token opentype: valid, or refused by the opener (the index phase then ends
+            # with a violation and the NEXT object must start from an empty opentype)
+            out += S(b"2") + (S(b"x") if k2 < 0.6 else tok(VOCAB, 2) if k2 < 0.75 else
+                              r.choice([enc_int(5), S(b"toolong"), bytes([FLOAT]) + bytes(8), tok(NEG, 3), tok(LONGINT, 2, b"ab")]))
         elif r.random() < 0.15 and kind in ("L", "I", "P"):
             out += tok(VOCAB, {"L": 0, "I": 1, "P": 7}[kind])
         else:
@@ -355,7 +359,7 @@ class TreeGen:
             return out + tok(CLOSE, oid)
         oid = self.oid
         self.oid += 1
-        kind = r.choice(["C0", "C1", "X", "T", "F", "Z", "I+s", "S0+s", "N0+c", "longindex", "abort", "intindex"])
+        kind = r.choice(["C0", "C1", "X", "T", "F", "Z", "I+s", "S0+s", "N0+c", "longindex", "abort", "intindex", "2+int", "2+long"])
         P = lambda: self.ping(0.4)        # PINGs must be answered in every state, also while discarding
         G = lambda: self.good(1)[0]       # evaluated in stream order, so that recorded pings match the stream
         if kind in ("C0", "X", "T", "F", "Z"):
@@ -372,6 +376,10 @@ class TreeGen:
             parts = [tok(OPEN, oid), S(b"LLLLL"), P, G, P]
         elif kind == "intindex":
             parts = [tok(OPEN, oid), enc_int(5), P, G, P]
+        elif kind == "2+int":
+            parts = [tok(OPEN, oid), S(b"2"), P, enc_int(5), P, G, P]
+        elif kind == "2+long":
+            parts = [tok(OPEN, oid), S(b"2"), S(b"LLLLL"), P, G, P]
         else:
             parts = [tok(OPEN, oid), S(b"L"), G, P, tok(ABORT, oid), G, P]
         out = b""
